@@ -525,7 +525,9 @@ func render(lv []hdrLevel) string {
 func rewriteCase(rt *rapid.T) {
 	kind := rapid.SampledFrom([]string{"prefix", "prefix", "regex", "regex", "host", "prefix+host"}).Draw(rt, "rewriteKind")
 	matchPrefix := rapid.SampledFrom([]string{"/api", "/api/", "/a/b", "/"}).Draw(rt, "matchPrefix")
-	rest := rapid.SampledFrom([]string{"", "/users", "/users/42", "/x.y_z-w", "/api/again"}).Draw(rt, "rest")
+	// the kept remainder may carry percent-encoded characters (a space, a '?', non-ASCII): they have to reach the upstream
+	// encoded - as a raw space or a raw '?' they would break the request line or move the query's start
+	rest := rapid.SampledFrom([]string{"", "/users", "/users/42", "/x.y_z-w", "/api/again", "/a%20b", "/q%3Fx/y", "/%E4%BD%A0/ok", "/users/a%20b%3Fc"}).Draw(rt, "rest")
 	query := rapid.SampledFrom([]string{"", "q=1", "a=b&c=%2F"}).Draw(rt, "query")
 	reqPath := strings.TrimSuffix(matchPrefix, "/") + rest
 	if matchPrefix == "/" {
@@ -581,7 +583,15 @@ func rewriteCase(rt *rapid.T) {
 	if i := strings.IndexByte(gotPath, '?'); i >= 0 {
 		gotPath, gotQuery = gotPath[:i], gotPath[i+1:]
 	}
-	if gotPath != wantPath {
+	if strings.Contains(rest, "%") {
+		// which characters stay escaped literally is the codec's business (C01); the rewrite is judged on the decoded path
+		ev.Class(partE2E, "rewrite:remainder-with-percent-escapes")
+		gd, err1 := url.PathUnescape(gotPath)
+		wd, _ := url.PathUnescape(wantPath)
+		if err1 != nil || gd != wd || strings.ContainsAny(gotPath, " ") {
+			fail(rt, "rewrite/"+kind+"-path-wrong", "%s: the upstream saw path %q (decoded %q), want a path that decodes to %q", desc, gotPath, gd, wd)
+		}
+	} else if gotPath != wantPath {
 		fail(rt, "rewrite/"+kind+"-path-wrong", "%s: the upstream saw path %q, want %q", desc, gotPath, wantPath)
 	}
 	if gotQuery != query {
